@@ -5,6 +5,7 @@ CONSTANTS
  MaxTicket = 12
  MaxStale = 0
  MaxExh = 0
+ MaxReins = 0
  AllowRemove = FALSE
  Dev = {}
 INVARIANTS TypeOK NoLostWakeup NoStreamLost ReadyHasSignal FairBoundTight LiveInHeap YieldBound
